@@ -434,6 +434,9 @@ enum Op {
     Load(usize, Vec<Rec>),
     Roundtrip(usize, bool),
     Dump(usize),
+    /// Finding F2 probe: a unit-struct component (no data) on marked entities, plain serialise in the case's
+    /// format, load into a fresh world; result `unit kept <k> of <n>` (k = carriers of the unit component after loading).
+    UnitRoundtrip,
 }
 
 fn wn(w: usize) -> &'static str {
@@ -442,6 +445,7 @@ fn wn(w: usize) -> &'static str {
 
 fn show_op(op: &Op) -> String {
     match op {
+        Op::UnitRoundtrip => "unit_roundtrip".to_string(),
         Op::Cfg { uuid, ron } => format!("cfg {} {}", if *uuid { "uuid" } else { "simple" }, if *ron { "ron" } else { "json" }),
         Op::Create(w, atomic) => format!("create {} {}", wn(*w), if *atomic { "atomic" } else { "now" }),
         Op::SetP(w, k, Some(v)) => format!("setp {} @{} {}", wn(*w), k, v),
@@ -490,6 +494,7 @@ fn parse_op(line: &str) -> Option<Op> {
     let l = line.split(" => ").next().unwrap().trim();
     let ts: Vec<&str> = l.split_whitespace().collect();
     Some(match ts.as_slice() {
+        ["unit_roundtrip"] => Op::UnitRoundtrip,
         ["cfg", m, f] => Op::Cfg {
             uuid: match *m { "simple" => false, "uuid" => true, _ => return None },
             ron: match *f { "json" => false, "ron" => true, _ => return None },
@@ -707,6 +712,7 @@ impl<M: MK> Exec<M> {
     fn exec_inner(&mut self, op: &Op) -> String {
         match op {
             Op::Cfg { .. } => harness_bug("cfg reached the executor".into()),
+            Op::UnitRoundtrip => harness_bug("unit_roundtrip reached the executor".into()),
             Op::Create(w, atomic) => {
                 let e = if *atomic { self.worlds[*w].entities().create() } else { self.worlds[*w].create_entity().build() };
                 self.logs[*w].push(e);
@@ -860,21 +866,83 @@ fn make_runner(uuid: bool, ron: bool) -> Box<dyn Runner> {
     if uuid { Box::new(Exec::<UuidMarker>::new(ron)) } else { Box::new(Exec::<SM>::new(ron)) }
 }
 
+/// Unit-struct component (serialises as serde's unit struct).
+#[derive(Clone, Copy, Debug, Default, PartialEq, Serialize, Deserialize)]
+struct UnitC;
+impl Component for UnitC { type Storage = NullStorage<Self>; }
+
+/// See `Op::UnitRoundtrip`. Three marked entities: unit component + P, unit component only, P only.
+fn unit_roundtrip(ron: bool) -> String {
+    use specs::saveload::MarkedBuilder as _;
+    fn mk() -> World {
+        let mut w = World::new();
+        w.register::<UnitC>();
+        w.register::<P>();
+        w.register::<SM>();
+        w.insert(specs::saveload::SimpleMarkerAllocator::<Tag>::default());
+        w
+    }
+    let r = catch_unwind(AssertUnwindSafe(|| {
+        let mut w = mk();
+        w.create_entity().with(UnitC).with(P(1)).marked::<SM>().build();
+        w.create_entity().with(UnitC).marked::<SM>().build();
+        w.create_entity().with(P(2)).marked::<SM>().build();
+        let mut buf: Vec<u8> = Vec::new();
+        let ok = {
+            let (ents, u, p, m) = (w.entities(), w.read_storage::<UnitC>(), w.read_storage::<P>(), w.read_storage::<SM>());
+            if ron {
+                match ron::ser::Serializer::new(&mut buf, None) {
+                    Ok(mut ser) => SerializeComponents::<Infallible, SM>::serialize(&(&u, &p), &ents, &m, &mut ser).is_ok(),
+                    Err(_) => false,
+                }
+            } else {
+                let mut ser = serde_json::Serializer::new(&mut buf);
+                SerializeComponents::<Infallible, SM>::serialize(&(&u, &p), &ents, &m, &mut ser).is_ok()
+            }
+        };
+        if !ok { return "fail".to_string(); }
+        let text = String::from_utf8(buf).unwrap();
+        let w2 = mk();
+        let ok = {
+            let (ents, mut u, mut p, mut m, mut a) = (w2.entities(), w2.write_storage::<UnitC>(), w2.write_storage::<P>(), w2.write_storage::<SM>(), w2.write_resource::<specs::saveload::SimpleMarkerAllocator<Tag>>());
+            if ron {
+                match ron::de::Deserializer::from_str(&text) {
+                    Ok(mut de) => DeserializeComponents::<Infallible, SM>::deserialize(&mut (&mut u, &mut p), &ents, &mut m, &mut *a, &mut de).is_ok(),
+                    Err(_) => false,
+                }
+            } else {
+                let mut de = serde_json::Deserializer::from_str(&text);
+                DeserializeComponents::<Infallible, SM>::deserialize(&mut (&mut u, &mut p), &ents, &mut m, &mut *a, &mut de).is_ok()
+            }
+        };
+        if !ok { return "fail".to_string(); }
+        let k = w2.read_storage::<UnitC>().count();
+        let np = w2.read_storage::<P>().count();
+        if np != 2 { return format!("unit kept {} of 2 p={}", k, np); }
+        format!("unit kept {} of 2", k)
+    }));
+    r.unwrap_or_else(|_| "panic".to_string())
+}
+
 struct Harness {
     runner: Box<dyn Runner>,
     show_text: bool,
+    ron: bool,
 }
 
 impl Harness {
     fn new(show_text: bool) -> Self {
-        Harness { runner: make_runner(false, false), show_text }
+        Harness { runner: make_runner(false, false), show_text, ron: false }
     }
     /// executes one op, appends its transcript line, returns the result tokens
     fn step(&mut self, op: &Op, out: &mut String) -> String {
         *WD_BUSY.lock().unwrap() = Some((std::time::Instant::now(), show_op(op)));
         let res = if let Op::Cfg { uuid, ron } = op {
             self.runner = make_runner(*uuid, *ron);
+            self.ron = *ron;
             "ok".to_string()
+        } else if let Op::UnitRoundtrip = op {
+            unit_roundtrip(self.ron)
         } else {
             self.runner.exec(op)
         };
@@ -1017,6 +1085,8 @@ fn gen_rt(rng: &mut Rng) -> Vec<Op> {
         ops.push(Op::Deserialize(1, 1));
         ops.push(Op::Dump(1));
     }
+    // F2 probe last (the monitor stops at its first rejection of a case)
+    if rng.chance(1, 8) { ops.push(Op::UnitRoundtrip); }
     ops
 }
 
@@ -1121,7 +1191,7 @@ fn gen_hist(rng: &mut Rng, maxlen: usize, h: &mut Harness, out: &mut String) {
             Op::Create(w, _) | Op::SetP(w, ..) | Op::SetR(w, ..) | Op::SetE(w, ..) | Op::Mark(w, _) | Op::DelNow(w, _)
             | Op::DelBatch(w, _) | Op::DelAtomic(w, _) | Op::Maintain(w) | Op::AllocMaintain(w) | Op::Serialize(w, _)
             | Op::Deserialize(w, _) | Op::Load(w, _) | Op::Roundtrip(w, _) | Op::Dump(w) => *w,
-            Op::Cfg { .. } => 0,
+            Op::Cfg { .. } | Op::UnitRoundtrip => 0,
         };
         let quiet = matches!(op, Op::Serialize(_, false) | Op::Roundtrip(..) | Op::Cfg { .. } | Op::Dump(_));
         if !quiet && res != "skip" {
